@@ -144,7 +144,13 @@ func c03r1(c *Ctx) {
 
 func c03r2(c *Ctx) {
 	s := getStoreRoles(c.P)
-	for _, f := range []*ir.Func{s.apply, s.revert} {
+	scan := []*ir.Func{s.apply, s.revert}
+	for _, m := range s.methods {
+		if m != s.apply && m != s.revert && m != s.dbsFlush && s.flushPoints[m.Obj] {
+			scan = append(scan, m) // wrappers around the commit point are held to the same rule
+		}
+	}
+	for _, f := range scan {
 		g := f.Graph()
 		c.VisitGraph(f)
 		ob := c.Ob(f, "no-write-after-flush-point", f.Body.Pos())
